@@ -13,7 +13,7 @@ def c14_nontrivial(case, v):
 
 
 PROP = dict(
-    proof_modules=["VrpProofs.C14"], model_modules=["VrpModel.C14"], drv="drv_c14", bin="c14",
+    proof_modules=["VrpProofs.C14.Lists", "VrpProofs.C14.Assoc", "VrpProofs.C14.Tour", "VrpProofs.C14.Observe", "VrpProofs.C14.Registry", "VrpProofs.C14.RegistryNew", "VrpProofs.C14.RegistryRef", "VrpProofs.C14.Machine", "VrpProofs.C14"], model_modules=["VrpModel.C14"], drv="drv_c14", bin="c14",
     nontrivial=c14_nontrivial,
     rule="the operation sequence contains an insertion/acquisition (ins_at, ins_last, use, get_route), a removal/release "
          "(rem, rem_at, free, free_route) and a copy (deep_copy or deep_slice); distinct = SHA-256 of the canonical case input",
